@@ -97,7 +97,7 @@ Proof. intros cfg. split; [exact (libcore_fuel_monotone cfg)|exact (libcore_coun
 Print Assumptions C01_premises_hold_for_modelled_library.
 
 (* ... and for the COMBINED library the check runs (Model/LibAll.v: LibCore overlaid with the lifted array / object / string
-   functions of Model/LibSeq.v, 58 functions): all four premises of the simulation theorems *)
+   functions of Model/LibSeq.v, and arraySort of Model/LibCall.v, which CALLS BACK into script code): all four premises *)
 Theorem C01_premises_hold_for_combined_library : forall cfg,
   lib_fuel_monotone (libfull cfg) /\ lib_count_blind (libfull cfg) /\ lib_monotone (libfull cfg) /\ lib_lockstep (libfull cfg) cfg.
 Proof.
